@@ -230,7 +230,7 @@ class Recorder(object):
         sides = ['r', 'p'] + (['t'] if self.hasTS else [])
         zero = [0, 0]
         e = {'ev': 'quant', 'cls': self.cls, 'q': q, 'kind': kind, 'hasTS': self.hasTS,
-             'bk': list(self.bkeys), 'hasK': False}
+             'bk': list(self.bkeys), 'hasK': False, 'dim': dim is not None}
         e['kb'] = snapshot(kw)
         extra = dict(opts)
         if dim is not None:
@@ -291,6 +291,74 @@ class Recorder(object):
         if e['hasSp']:
             e['sp'] = {s: (self.sp_side(s, meth, opts, kind == 'prod') if s in sides else [])
                        for s in ('r', 'p', 't')}
+        return e
+
+    def act_applicable(self, q):
+        """get_X_act getters judged here: not the Arrhenius energy, not the clamped H/G barriers of the
+        subclasses (C09; those fall back to the reaction change by design)"""
+        return q != 'E' and not (self.cls != 'Reaction' and q in ('H', 'G'))
+
+    def refuse(self, q, opts=None):
+        """a reaction WITHOUT a transition state: every getter asked for an activation quantity"""
+        rxn, kw = self.rxn, self.kw
+        opts = dict(opts or {})
+        kind = 'prod' if q == 'q' else 'sum'
+        dl_name = DIMLESS[q]
+        meth = 'get_' + dl_name
+        units = self.rnd.choice(ENERGY_UNITS) + ('/K' if q in ('Cv', 'Cp', 'S') else '')
+        calls = []
+        for rev in (False, True):
+            calls.append(('get_delta_%s' % dl_name, rev,
+                          lambda rev=rev: getattr(rxn, 'get_delta_' + dl_name)(rev=rev, act=True, **opts, **kw)))
+        for rev in (False, True):
+            calls.append(('get_delta_quantity', rev,
+                          lambda rev=rev: rxn.get_delta_quantity(
+                              initial_state='products' if rev else 'reactants', final_state='transition state',
+                              method_name=meth, **opts, **kw)))
+            if self.act_applicable(q):
+                calls.append(('get_%s_act' % dl_name, rev,
+                              lambda rev=rev: getattr(rxn, 'get_%s_act' % dl_name)(rev=rev, **opts, **kw)))
+            if q == 'G':
+                calls.append(('get_Keq', rev, lambda rev=rev: rxn.get_Keq(rev=rev, act=True, **kw)))
+            if q != 'q':
+                calls.append(('get_delta_%s' % q, rev,
+                              lambda rev=rev: getattr(rxn, 'get_delta_' + q)(units=units, rev=rev, act=True,
+                                                                             **opts, **kw)))
+                if self.act_applicable(q):
+                    calls.append(('get_%s_act' % q, rev,
+                                  lambda rev=rev: getattr(rxn, 'get_%s_act' % q)(units=units, rev=rev, **opts, **kw)))
+        e = {'ev': 'refuse', 'cls': self.cls, 'q': q, 'kind': kind, 'hasTS': self.hasTS, 'kb': snapshot(kw)}
+        g, out, vals, fam = [], [], {}, []
+        for name, rev, fn in calls:
+            g.append('%s(rev=%s)' % (name, rev))
+            fam.append('get_delta_quantity' if name == 'get_delta_quantity' else 'get_Keq' if name == 'get_Keq'
+                       else name.replace(dl_name, 'XoRT') if dl_name in name.split('_') else
+                       name.replace('_' + q, '_X'))
+            try:
+                v = fn()
+            except Exception:                 # any exception is a refusal
+                out.append('raised')
+            else:
+                out.append('value')
+                vals[(name, rev)] = v
+        e['ka'] = snapshot(kw)
+        e['g'], e['out'], e['fam'] = g, out, fam
+        zero = [0, 0]
+        e.update({'both': False, 'af': zero, 'ar': zero, 'd': zero, 'sr': zero, 'sp': zero,
+                  'kboth': False, 'kf': zero, 'kr': zero, 'k': zero})
+        key = 'get_delta_%s' % dl_name
+        if (key, False) in vals and (key, True) in vals and all(core.finite(vals[(key, r)]) for r in (False, True)):
+            e['both'] = True
+            e['af'], e['ar'] = to_dec(vals[(key, False)]), to_dec(vals[(key, True)])
+            e['d'] = fdec(getattr(rxn, key)(rev=False, act=False, **opts, **kw))
+            e['sr'] = fdec(getattr(rxn, 'get_%s_state' % dl_name)(state='reactants', **opts, **kw))
+            e['sp'] = fdec(getattr(rxn, 'get_%s_state' % dl_name)(state='products', **opts, **kw))
+        if ('get_Keq', False) in vals and ('get_Keq', True) in vals:
+            ks = [float(vals[('get_Keq', False)]), float(vals[('get_Keq', True)]),
+                  float(rxn.get_Keq(rev=False, act=False, **kw))]
+            if all(core.finite(x) and 1e-140 < x < 1e140 for x in ks):
+                e['kboth'] = True
+                e['kf'], e['kr'], e['k'] = [to_dec(x) for x in ks]
         return e
 
     def iso(self, q, side, drop_key, opts=None):
@@ -363,6 +431,14 @@ def exec_spy(case):
         mism.append({'what': 'state', 'q': q, 'expected': case['st'], 'got': got_st})
     if got_dl != case['dl']:
         mism.append({'what': 'delta', 'q': q, 'expected': case['dl'], 'got': got_dl})
+    if case['actRefused']:               # TLC: no transition state -> act = True is refused
+        for rev in (False, True):
+            try:
+                v = getattr(rxn, 'get_delta_%s' % dl_name)(rev=rev, act=True, **kw)
+            except Exception:
+                continue
+            mism.append({'what': 'refusal', 'q': q, 'getter': 'get_delta_%s(rev=%s, act=True)' % (dl_name, rev),
+                         'expected': 'raises', 'got': repr(v)})
     # keywords every species received
     want = {''.join(r['n']): r for r in case['route']}
     for name, meth, got in log:
@@ -386,6 +462,10 @@ def exec_spy(case):
     # the same object judged by the trace specification
     rec = Recorder(rxn, cls, sides, glob, blocks, kw, bkeys, rnd)
     events = [rec.quant(q), rec.quant('q')]
+    if not case['hasTS']:
+        events.append(rec.refuse(q))
+        if case['cseed'] % 4 == 0:
+            events.append(rec.refuse('q'))
     hit = [k for k in bkeys if any(k == '%s_kwargs' % sp.name for s in sides for sp, _ in sides[s])]
     if hit:
         k = rnd.choice(hit)
@@ -473,6 +553,8 @@ def exec_real(case):
     all_vib = all(getattr(sp, 'vib_model', None).__class__.__name__ == 'HarmonicVib'
                   for s in sides for sp, _ in sides[s])
     events, skipped = [], []
+    # no transition state: the Gibbs family (get_delta_GoRT / get_delta_G / get_Keq) always, two more at random
+    refuse_q = set(['G'] + rnd.sample(qs, min(2, len(qs)))) if not T else set()
     info = {'cls': cls, 'mix': mix, 'n': [len(R), len(P), len(T)], 'bep': use_bep, 'quarter': quarter,
             'blocks': [n for n, _ in blocks], 'T': glob['T'], 'P': glob.get('P')}
 
@@ -492,6 +574,8 @@ def exec_real(case):
         emit(lambda: rec.quant(q, opts=opts, with_sp=(q != 'q' or quarter)), q)
         if rnd.random() < 0.25:
             emit(lambda: rec.quant(q, via='generic', opts=opts, with_sp=(q != 'q' or quarter)), q + '/generic')
+        if q in refuse_q:
+            emit(lambda: rec.refuse(q, opts=opts), q + '/refuse')
         if q != 'q' and rnd.random() < 0.35:
             emit(lambda: rec.quant(q, dim=rnd.choice(ENERGY_UNITS),
                                    opts=({'include_ZPE': opts['include_ZPE']} if q == 'E' else {})), q + '/dim')
@@ -525,36 +609,61 @@ def execute(case):
 
 
 def _exercise(ev, counts):
-    """which clause groups of Trace_Reaction.tla this event evaluates with a non-trivial antecedent"""
-    def inc(k):
+    """which clause families of Trace_Reaction.tla this event evaluates with a non-trivial antecedent,
+    per reaction class and with / without a transition state"""
+    cls = ev['cls']
+
+    def inc(k, ts=None):
+        k = '%s | %s%s' % (k, cls, '' if ts is None else (' | TS' if ts else ' | noTS'))
         counts[k] = counts.get(k, 0) + 1
-    hit = False
     if ev['ev'] == 'iso':
-        inc('RouteIsolation/' + ev['kind'])
+        inc('RouteIsolation')
         return
-    names = set()
+    if ev['ev'] == 'refuse':
+        for f in ev['fam']:
+            inc('ActWithoutTSRefused/' + f)
+        return
+    ts = ev['hasTS']
+    k = ev['kind']
+    inc('CallerKwargsUntouched', ts)
+    inc('Antisymmetry+DeltaOfStates/' + k, ts)
     if ev.get('hasSp'):
         names = {x['n'] for s in ('r', 'p', 't') for x in ev['sp'][s]}
-        hit = any(k[:-len('_kwargs')] in names for k in ev['bk'])
-    k = ev['kind']
-    inc('Antisymmetry+DeltaOfStates/' + k)
-    if ev.get('hasSp'):
-        inc(('Hess+StateIsWeightedSum/' if k == 'sum' else 'QStateIsProduct/') + ev['cls'])
-        if hit:
-            inc('routing: a block addressed to a species of the reaction/' + k)
+        inc('Hess+StateIsWeightedSum' if k == 'sum' else 'QStateIsProduct', ts)
+        if any(kk[:-len('_kwargs')] in names for kk in ev['bk']):
+            inc('routing: a block addressed to a species of the reaction')
         if any(kk[:-len('_kwargs')] not in names for kk in ev['bk']):
-            inc('routing: a block addressed to somebody else/' + k)
-    if ev['hasTS']:
+            inc('routing: a block addressed to somebody else')
+    if ts:
         inc('ActDifference(delta, act=True)/' + k)
-    if ev['hasTS'] and ev['hasAct']:
+    if ts and ev['hasAct']:
         inc('ActDifference+ActIsDeltaToTS(get_*_act)/' + k)
     if ev.get('hasK'):
         if ev['kfin'][0] and ev['kfin'][2]:
-            inc('KeqIsExpMinusDG+KfKrIsOne')
-        if ev['hasTS'] and ev['kfin'][0] and ev['kfin'][1] and ev['kfin'][3]:
+            inc('KeqIsExpMinusDG+KfKrIsOne', ts)
+        if ts and ev['kfin'][0] and ev['kfin'][1] and ev['kfin'][3]:
             inc('KeqActRatio')
-    if ev.get('hasSp') is False and 'sp' not in ev and ev['kind'] == 'sum':
-        inc('dimensional getters')
+    if 'sp' not in ev and k == 'sum' and ev.get('dim'):
+        inc('dimensional getters', ts)
+
+
+def _needed():
+    need = []
+    for c in CLASSES:
+        for ts in (' | TS', ' | noTS'):
+            need += [f + ' | ' + c + ts for f in
+                     ('CallerKwargsUntouched', 'Antisymmetry+DeltaOfStates/sum', 'Antisymmetry+DeltaOfStates/prod',
+                      'Hess+StateIsWeightedSum', 'QStateIsProduct', 'KeqIsExpMinusDG+KfKrIsOne',
+                      'dimensional getters')]
+        need += [f + ' | ' + c for f in
+                 ('RouteIsolation', 'routing: a block addressed to a species of the reaction',
+                  'routing: a block addressed to somebody else', 'ActDifference(delta, act=True)/sum',
+                  'ActDifference(delta, act=True)/prod', 'ActDifference+ActIsDeltaToTS(get_*_act)/sum',
+                  'ActDifference+ActIsDeltaToTS(get_*_act)/prod', 'KeqActRatio',
+                  'ActWithoutTSRefused/get_delta_XoRT', 'ActWithoutTSRefused/get_delta_X',
+                  'ActWithoutTSRefused/get_delta_quantity', 'ActWithoutTSRefused/get_XoRT_act',
+                  'ActWithoutTSRefused/get_X_act', 'ActWithoutTSRefused/get_Keq')]
+    return need
 
 
 def _signature(case, info):
@@ -582,8 +691,9 @@ def run(ctx):
     else:
         import concurrent.futures as cf
         t0, c0 = time.time(), _cpu()
-        variants = (('alias', 'CallerUntouched'), ('prefix', None), ('actswap', None))
-        with cf.ThreadPoolExecutor(max_workers=6) as ex:
+        variants = (('alias', 'CallerUntouched'), ('prefix', None), ('actswap', None),
+                    ('actfallback', 'ActDifference'))
+        with cf.ThreadPoolExecutor(max_workers=7) as ex:
             f_route = ex.submit(ctx.model, 'MC_Reaction', 'MC_Reaction_route', 6)
             f_alg = ex.submit(ctx.model, 'MC_Reaction', ctx.pick('MC_Reaction', 'MC_Reaction_full'), 8)
             f_var = [ex.submit(ctx.model, 'MC_Reaction', 'MC_Reaction_' + v, 1, False) for v, _ in variants]
@@ -601,9 +711,9 @@ def run(ctx):
         spy = list(data)
         rnd.shuffle(spy)
         if ctx.quick:
-            spy = spy[:2500]
+            spy = spy[:2000]
         cases = [dict(c, kind='spy', cseed=rnd.randrange(1 << 30)) for c in spy]
-        n_real = ctx.pick(1500, 12000)
+        n_real = ctx.pick(1200, 12000)
         for i in range(n_real):
             cls = CLASSES[i % 3]
             mix = 'empirical' if cls == 'ChemkinReaction' else ['statmech', 'mixed', 'empirical', 'statmech'][(i // 3) % 4]
@@ -619,7 +729,8 @@ def run(ctx):
         ctx.evaluated()
         tags = {'kind': case['kind'], 'cls': info.get('cls') or case.get('cls')}
         for m in mism:
-            clause = {'raised': 'Raises', 'route': 'ReplayRoute', 'kwargs': 'ReplayKwargsUntouched'}.get(
+            clause = {'raised': 'Raises', 'route': 'ReplayRoute', 'kwargs': 'ReplayKwargsUntouched',
+                      'refusal': 'ReplayActRefused'}.get(
                 m['what'], 'ReplayState')
             ctx.violation(clause, case, tags=dict(tags, q=m.get('q')), detail=m)
         skipped += len(info.get('skipped_nonfinite', []))
@@ -643,13 +754,7 @@ def run(ctx):
     ctx.coverage['events_skipped_nonfinite'] = skipped
     ctx.coverage['clause_exercise'] = dict(sorted(exercise.items()))
     if ctx.replay_case is None:
-        need = ['Antisymmetry+DeltaOfStates/sum', 'Antisymmetry+DeltaOfStates/prod', 'QStateIsProduct/Reaction',
-                'ActDifference(delta, act=True)/sum', 'ActDifference(delta, act=True)/prod',
-                'ActDifference+ActIsDeltaToTS(get_*_act)/sum', 'ActDifference+ActIsDeltaToTS(get_*_act)/prod',
-                'KeqIsExpMinusDG+KfKrIsOne', 'KeqActRatio', 'RouteIsolation/sum', 'RouteIsolation/prod',
-                'routing: a block addressed to a species of the reaction/sum',
-                'routing: a block addressed to somebody else/sum', 'dimensional getters'] + \
-               ['Hess+StateIsWeightedSum/' + c for c in CLASSES]
+        need = _needed()
         vac = [k for k in need if exercise.get(k, 0) < 5]
         if vac:
             raise core.MachineryError('vacuous clauses (never exercised non-trivially): %s' % vac)
@@ -658,6 +763,8 @@ def run(ctx):
         case = cases[tid]
         ev = results[tid][0][idx]
         tags = {'kind': case['kind'], 'cls': ev.get('cls'), 'q': ev.get('q'), 'ev': ev.get('ev')}
+        if ev.get('ev') == 'refuse':
+            tags['getters'] = ','.join(sorted({g.split('(')[0] for g, o in zip(ev['g'], ev['out']) if o == 'value'}))
         per_clause[clause] = per_clause.get(clause, 0) + 1
         ctx.violation(clause, case, tags=tags, detail={'info': results[tid][2], 'event': ev})
     ctx.assume('exp(-delta G/RT) is a libm sensor computed from the logged get_delta_GoRT value')
